@@ -111,3 +111,19 @@ Proof.
   all: try (intros tt X; destruct (I _ X) as (q & Q); congruence).
   all: show.
 Qed.
+
+(* before the pool exists there are no pool threads *)
+Definition APN (s : state) : Prop := pl s = PNone -> wids s = [] /\ lock s = None.
+
+Lemma APN_step : forall s l s', APN s -> step s l = Some s' -> APN s'.
+Proof.
+  intros s l s' I H.
+  step_inv H; hold_facts; unfold APN in *; ssimp; ifs; ssimp; try assumption.
+  all: try (intros X; discriminate X).
+  all: try (intros X; destruct (I X) as (A & B); split; auto; congruence).
+  all: try (intros X; destruct (I X) as (A & B); congruence).
+Qed.
+
+(* an unregister of a kick event is owed only by the dying worker itself *)
+Definition WU (s : state) : Prop :=
+  forall w, In (FUnreg w) (todo s) \/ In FStop (todo s) /\ lock s = Some w -> lock s = Some w /\ wpc_of s w = WDead.
